@@ -5,10 +5,10 @@ from pyvc.dsl import REG
 REG.bounded_check("C03.literal_membership", ["C03"], "C03.bounded",
                   covers=["pyanalyze.runtime.is_assignable", "GenericValue.can_assign", "SequenceValue.can_assign", "TypedDictValue.can_assign (literal dict branch)",
                           "SubclassValue.can_assign", "NewTypeValue.can_assign", "replace_known_sequence_value", "annotations.type_from_runtime"],
-                  bound="39 objects x 48 static types (depth <= 2): is_assignable(o, T) == member(o, T) for a reference membership function")
+                  bound="42 objects x 49 static types (depth <= 2): is_assignable(o, T) == member(o, T) for a reference membership function")
 REG.bounded_check("C04.type_pairs", ["C04"], "C04.bounded",
                   covers=["GenericValue.can_assign", "SequenceValue.can_assign", "TypedDictValue.can_assign", "SubclassValue.can_assign", "TypeObject.can_assign (via type_from_runtime values)"],
-                  bound="48 x 48 static types against 39 objects (accepted => membership inclusion), reflexivity / Never / object on 43 types, union laws on 14^3 triples; documented leniencies and known findings D23/D24 skipped")
+                  bound="49 x 49 static types against 42 objects (accepted => membership inclusion), reflexivity / Never / object on 43 types, union laws on 14^3 triples; documented leniencies and known findings D23/D24 skipped")
 REG.bounded_check("C14.union_and_substitution_laws", ["C14"], "C14.bounded",
                   covers=["annotate_value", "substitute_typevars of every Value class", "MultiValuedValue.__eq__", "Value.is_assignable on united operands", "member order of unite_values (C10)"],
                   bound="18 values: all pairs (idempotence, Never identity, members, commutativity, operand acceptance, first-occurrence order), triples over 12 (associativity); substitution: identity on 23 closed values x 3 maps, full replacement on 10 open values, commutation with uniting on 36 pairs")
@@ -42,7 +42,7 @@ REG.bounded_check("C20.reference_denotation", ["C20"], "C20.bounded",
 REG.bounded_check("C01.instrumented_execution", ["C01"], "C01.bounded",
                   covers=["NameCheckVisitor (assignment, branching, loops, try/except, narrowing, unpacking, indexing, calls to annotated and generic functions, match)",
                           "stacked_scopes lookups", "implementation impl functions", "patma"],
-                  bound="14 programs x 1-4 argument tuples: every evaluated Name/Subscript/Call/BinOp/IfExp/BoolOp/Compare node's runtime value must belong to its inferred type (annotate_code)")
+                  bound="23 programs x 1-4 argument tuples: every evaluated Name/Subscript/Call/BinOp/IfExp/BoolOp/Compare node's runtime value must belong to its inferred type (annotate_code)")
 REG.bounded_check("C10.determinism", ["C10"], "C10.bounded",
                   covers=["the whole checker on the corpus: union member order, listed names, message text"],
                   bound="15 source files (format mapping keys, unexpected keywords, or/and narrowing, `in` narrowing, unused variables, branch unions, protocols, overloads, try/with definitions, nested functions, stdlib calls, iterator classes) x PYTHONHASHSEED in {0,1,2,3,5,7} (thorough: 0..15) in fresh subprocesses (full rendered messages compared); two check orders in one process; one Checker shared by all files (both orders) against the fresh-Checker baseline; 2 non-importable scripts checked without a module object, alone and after each other; module-name tokens normalised")
@@ -87,4 +87,4 @@ REG.bounded_check("C12.totality", ["C12"], "C12.bounded",
                   covers=["NameCheckVisitor on generated modules (catch-all, location extraction, context rendering)", "annotations._Visitor on odd annotations", "Value.can_assign / is_assignable / unite_values / substitute_typevars / can_overlap / __eq__ / __hash__ / __str__ on generated values"],
                   bound="120 (quick) / 600 (thorough) modules of 3-8 functions drawn from 118 statement templates and 57 odd annotation texts in 5 positions (string annotations on variables, parameters, returns, cast) (wrong arities, bad operands, undefined names, odd annotations, decorators, classes, comprehensions, lambdas, "
                         "star-expressions, f-strings, walrus, match, async), all error codes enabled as in the project's tests: no exception, no internal_error, registered code, line inside the file, column inside the line, "
-                        "non-empty message; 41 x 41 pairs of Values (every Value class, TypeVars, empty / nested shapes, literal unions of >= 10 members against unhashable literals): the value API returns")
+                        "non-empty message; 44 x 44 pairs of Values (every Value class, TypeVars, empty / nested shapes, literal unions of >= 10 members against unhashable literals): the value API returns")
